@@ -311,6 +311,7 @@ var atomicAddrs = map[uintptr]bool{}
 func ResetSync() {
 	locks = map[uintptr]*lockState{}
 	atomicAddrs = map[uintptr]bool{}
+	pools = map[uintptr][]any{}
 }
 
 func AtomicAddrs() map[uintptr]bool { return atomicAddrs }
@@ -448,6 +449,45 @@ func OnceDo(o *sync.Once, f func()) {
 	hook("release", addr)
 	onces[addr] = 2
 	o.Do(func() {}) // the real Once is done as well, whoever looks at it later
+}
+
+// sync.Pool under the simulator is a deterministic LIFO free list per pool: what Get
+// returns depends on the schedule the simulator chose and on nothing else (the real pool
+// keeps per-P caches that the garbage collector empties). An object put back is handed to
+// the very next Get: the reuse a pool permits, made certain.
+var pools = map[uintptr][]any{}
+
+// ResetPools empties every modelled pool (between scenarios).
+func ResetPools() { pools = map[uintptr][]any{} }
+
+func PoolGet(p *sync.Pool) any {
+	if !sch.attached.Load() {
+		return p.Get()
+	}
+	addr := uintptr(unsafe.Pointer(p))
+	hook("acquire", addr)
+	if l := pools[addr]; len(l) > 0 {
+		x := l[len(l)-1]
+		pools[addr] = l[:len(l)-1]
+		return x
+	}
+	if p.New != nil {
+		return p.New()
+	}
+	return nil
+}
+
+func PoolPut(p *sync.Pool, x any) {
+	if !sch.attached.Load() {
+		p.Put(x)
+		return
+	}
+	if x == nil {
+		return
+	}
+	addr := uintptr(unsafe.Pointer(p))
+	hook("release", addr)
+	pools[addr] = append(pools[addr], x)
 }
 
 // AtomicAddr marks the address as accessed atomically and returns it unchanged.
